@@ -131,7 +131,8 @@ func clusterScenarios(cvt conv.Converter) []swapScenario {
 	mk := func(name, lb string, hs []string) func() {
 		return func() {
 			c := v2.Cluster{}
-			vh.Must(json.Unmarshal(clusterCfgJSON(name, lb, hs), &c), "cluster config")
+			hm := uni(hs, "a1")
+			vh.Must(json.Unmarshal(clusterCfgJSON(name, lb, &hm), &c), "cluster config")
 			vh.Must(ad.TriggerClusterAndHostsAddOrUpdate(c, c.Hosts), "swap: cluster and hosts")
 		}
 	}
@@ -141,7 +142,7 @@ func clusterScenarios(cvt conv.Converter) []swapScenario {
 	s := swapScenario{name: "hosts-update", kind: "hosts", setup: mk("sw-upd", "rr", []string{"h1", "h2"}), init: swapStep{hs: sorted("h1", "h2")}, lookup: hostLookup("sw-upd")}
 	for _, set := range [][]string{{"h3"}, {"h1", "h3"}, {"h2"}, {"h1", "h2"}} {
 		set := set
-		s.steps = append(s.steps, swapStep{do: func() { vh.Must(ad.TriggerClusterHostUpdate("sw-upd", hostCfgs(set)), "swap: host update") }, hs: sorted(set...)})
+		s.steps = append(s.steps, swapStep{do: func() { vh.Must(ad.TriggerClusterHostUpdate("sw-upd", hostCfgs(uni(set, "a1"))), "swap: host update") }, hs: sorted(set...)})
 	}
 	out = append(out, s)
 	// AddOrUpdatePrimaryCluster: the cluster object is replaced, its hosts must stay
@@ -165,7 +166,7 @@ func clusterScenarios(cvt conv.Converter) []swapScenario {
 	// append / remove
 	s = swapScenario{name: "append-remove", kind: "hosts", setup: mk("sw-app", "rr", []string{"h1", "h2"}), init: swapStep{hs: sorted("h1", "h2")}, lookup: hostLookup("sw-app")}
 	s.steps = []swapStep{
-		{do: func() { vh.Must(ad.TriggerHostAppend("sw-app", hostCfgs([]string{"h3"})), "swap: append") }, hs: sorted("h1", "h2", "h3")},
+		{do: func() { vh.Must(ad.TriggerHostAppend("sw-app", hostCfgs(uni([]string{"h3"}, "a1"))), "swap: append") }, hs: sorted("h1", "h2", "h3")},
 		{do: func() { vh.Must(ad.TriggerHostDel("sw-app", []string{hostAddr["h3"]}), "swap: del") }, hs: sorted("h1", "h2")},
 	}
 	out = append(out, s)
@@ -174,11 +175,13 @@ func clusterScenarios(cvt conv.Converter) []swapScenario {
 	for _, locs := range [][][]string{{{"h1", "h2"}, {"h3"}}, {{"h2"}, {"h3"}}, {{"h1"}}} {
 		locs := locs
 		all := []string{}
+		las := []hostArg{}
 		for _, l := range locs {
 			all = append(all, l...)
+			las = append(las, uni(l, "a1"))
 		}
 		s.steps = append(s.steps, swapStep{do: func() {
-			vh.Must(cvt.ConvertUpdateEndpoints([]*envoy_config_endpoint_v3.ClusterLoadAssignment{loadAssignment("sw-eds", locs)}), "swap: endpoints")
+			vh.Must(cvt.ConvertUpdateEndpoints([]*envoy_config_endpoint_v3.ClusterLoadAssignment{loadAssignment("sw-eds", las)}), "swap: endpoints")
 		}, hs: sorted(all...)})
 	}
 	out = append(out, s)
